@@ -20,6 +20,7 @@
 //!   rfs-events          the records on disk, files in name order, are not a suffix of the emitted sequence ending with
 //!                       the last event (older events may only have left with a file deleted by retention)
 //!   rfs-outside         something appeared outside the set's directory
+//!   rfs-over-size-limit a file with more than one record is larger than the size limit
 //!   rfs-foreign-touched a planted entry is gone, or the file the symlinks point at changed (C11 "never reads, appends
 //!                       to or deletes a file that is not its own, whatever else shares the directory")
 
@@ -190,6 +191,11 @@ fn run(line: &str) -> String {
         for (_, content) in &members {
             if content.is_empty() {
                 fails.insert("rfs-empty-file");
+            }
+            // every batch here is one event: a file that holds more than one record and is larger than the limit was
+            // appended to although the batch took it past the limit (also when it was re-opened after a restart)
+            if size > 0 && content.len() > size && content.iter().filter(|b| **b == b'\n').count() > 1 {
+                fails.insert("rfs-over-size-limit");
             }
             for rec in String::from_utf8_lossy(content).split('\n').filter(|r| !r.is_empty()) {
                 match rec.find("\"marker\":\"").map(|i| &rec[i + 10..]).and_then(|t| t.split('"').next()) {
